@@ -376,7 +376,7 @@ def get_bs_cached(n, sigma=1.0, reg=0.0, correction=True, basis_dir='', dr=1.0,
             M, Mc = _bs_basex(n, sigma, oldM, verbose=verbose)
 
             if basis_dir is not None:
-                np.save(full_path(basis_file), (M, Mc))
+                abel.transform._save_basis(full_path(basis_file), (M, Mc))
                 if verbose:
                     print('Basis set saved for later use to')
                     print('  {}'.format(basis_file))
